@@ -307,12 +307,34 @@ func (p *Program) callees(site ssa.CallInstruction) []*ssa.Function {
 	var out []*ssa.Function
 	seen := map[*ssa.Function]bool{}
 	for _, e := range n.Out {
-		if e.Site == site && e.Callee != nil && !seen[e.Callee.Func] {
-			seen[e.Callee.Func] = true
-			out = append(out, e.Callee.Func)
+		if e.Site == site && e.Callee != nil {
+			f := unwrapSynthetic(e.Callee.Func)
+			if !seen[f] {
+				seen[f] = true
+				out = append(out, f)
+			}
 		}
 	}
 	return out
+}
+
+// unwrapSynthetic: a bound-method wrapper or thunk (w.writeX used as a func value) stands for the method it calls.
+func unwrapSynthetic(f *ssa.Function) *ssa.Function {
+	for i := 0; i < 3 && f != nil && f.Synthetic != "" && f.Pkg == nil && len(f.Blocks) == 1; i++ {
+		var inner *ssa.Function
+		for _, in := range f.Blocks[0].Instrs {
+			if c, ok := in.(ssa.CallInstruction); ok {
+				if g := c.Common().StaticCallee(); g != nil {
+					inner = g
+				}
+			}
+		}
+		if inner == nil {
+			break
+		}
+		f = inner
+	}
+	return f
 }
 
 // reachableFrom returns the set of functions reachable from the roots in the call graph.
